@@ -260,10 +260,10 @@ func init() {
 	streams["hsfault"] = func(seed int64, idx int) *scenario { return runHsFaultScenario(seed*1000003+int64(idx), idx) }
 	streams["glue"] = func(seed int64, idx int) *scenario { return runGlueScenario(seed*1000003 + int64(idx)) }
 	streams["nego"] = func(seed int64, idx int) *scenario { return runNegoScenario(seed*1000003+int64(idx), idx) }
-	// the cell space (4 proxies x 2 schemes x 8 dial-function sets x 4 credentials x 3 certificates x 8
-	// skip-verify slots = 6144 indexes, about a third of them runnable) is walked with a stride coprime
-	// to its size, so that any run length samples every dimension
-	streams["matrix"] = func(seed int64, idx int) *scenario { return runMatrixScenario(seed, (idx*37+int(seed%7)*61)%6144) }
+	// the cell space (4 proxies x 2 schemes x 8 dial-function sets x 4 credentials x 3 certificates x
+	// InsecureSkipVerify off/on = 1536 indexes, about half of them runnable) is walked with a stride
+	// coprime to its size, so that any run length samples every dimension and 1536 scenarios are all of it
+	streams["matrix"] = func(seed int64, idx int) *scenario { return runMatrixScenario(seed, (idx*37+int(seed%7)*61)%1536) }
 	streams["sched"] = func(seed int64, idx int) *scenario {
 		if idx%8 == 7 {
 			sd := seed*1000003 + int64(idx)
